@@ -9,10 +9,13 @@
    (3) the two layers are connected (Cs104/QueueRefine.v): under the abstraction `absq` (forget the offsets) every ring
        operation IS the corresponding list operation of Cs104/Server.v, displacement of the D oldest entries being the
        only difference (last four theorems).
-   PARTIAL: the capacity clause (N equal-size entries are retained) is evaluated by the oracle only; the server model's
-   trace theorems assume the log stays below capacity (D = 0). *)
+   (4) the capacity clause is proved on the ring (Cs104/MqCapacity.v, theorems C06_capacity_equal_sizes and C06_capacity_step): for every ring size n, every ASDU
+       size z and every history in which all enqueued ASDUs have z octets, an enqueue displaces an entry only if at least n
+       entries are in the ring afterwards (and then exactly one, the oldest).
+   PARTIAL: the server model's trace theorems assume the log stays below capacity (D = 0); the composition of server
+   model and ring into one trace theorem is not proved. *)
 From Coq Require Import ZArith List Bool.
-From L60870 Require Import Cs104.Server Cs104.EventLogProofs Cs104.MsgQueue Cs104.MqRingProofs Cs104.QueueRefine.
+From L60870 Require Import Cs104.Server Cs104.EventLogProofs Cs104.MsgQueue Cs104.MqRingProofs Cs104.QueueRefine Cs104.MqCapacity.
 Import ListNotations.
 Local Open Scope Z_scope.
 
@@ -112,3 +115,26 @@ Theorem C06_refine_confirm : forall q l o id, MQInv q l -> valid_pair q l o id -
 Proof. exact refine_confirm. Qed.
 Theorem C06_refine_reset : forall q l, MQInv q l -> absq (reset_lay l l) = Server.mq_reset_waiting (absq l).
 Proof. intros q l H. apply refine_reset. apply (inv_offsets_nodup q l H). Qed.
+
+(* capacity: "a queue configured for N entries retains at least the N most recent ASDUs when they are of equal size".
+   cap_run n q issued ops says: along the run, every enqueue either displaces nothing (entry count + 1) or leaves the count
+   unchanged -- exactly one entry, by C06_ring_enqueue the oldest, is displaced -- and then at least n entries are in the ring.
+   For EVERY ring size n >= 1, every ASDU size z in 0..250 and every history of enqueue (z octets each) / getNextWaiting /
+   confirm (any pair handed out before) / setWaitingWhenNotConfirmed / queries from the empty ring. *)
+Theorem C06_capacity_equal_sizes : forall n z ops, 1 <= n -> 0 <= z <= 250 ->
+  (forall a, In (MEnq a) ops -> MqRingProofs.lenz a = z) -> 1 + Z.of_nat (length ops) < TWO64 - 1 ->
+  cap_run n (mq_new n) [] ops.
+Proof. exact mq_capacity. Qed.
+(* one step, from any state satisfying the invariants (W = 16 + z is the slot width) *)
+Theorem C06_capacity_step : forall W z q l issued o, 0 <= z <= 250 -> W = HDR + z -> MQInv q l -> Ext W q l -> Issued q l issued ->
+  nid q < TWO64 - 1 -> (forall a, o = MEnq a -> MqRingProofs.lenz a = z) ->
+  exists q' l' issued' out, mq_step q issued o = MsgQueue.Ok (q', issued', out) /\ MQInv q' l' /\ Ext W q' l' /\ Issued q' l' issued' /\
+    nid q <= nid q' <= nid q + 1 /\ qsize q' = qsize q /\
+    (forall a, o = MEnq a -> cnt q' = cnt q + 1 \/ (cnt q' = cnt q /\ qsize q < (cnt q' + 1) * W)).
+Proof. exact cap_step. Qed.
+(* sharpness / non-vacuity: n = 2 with the largest ASDUs keeps exactly the two most recent; smaller ones keep more than n *)
+Example C06_capacity_example :
+  match mq_run (mq_new 2) [] [MEnq (repeat 1 250); MEnq (repeat 2 250); MEnq (repeat 3 250); MEnq (repeat 4 250)] with
+  | MsgQueue.Ok (q, _) => cnt q = 2 /\ map (fun p => e_id (snd p)) (match mq_entries q with MsgQueue.Ok l => l | MsgQueue.Fault _ => [] end) = [3; 4]
+  | MsgQueue.Fault _ => False end.
+Proof. exact cap_example. Qed.
